@@ -13,7 +13,7 @@ TRUSTED = [
     "translator tools/py2coq/gen_particle_tables.py: attribute_mapping, the float/int cast lists, the relaxed-column formats of Particle.__initialize_from_array and OscarLoader._set_custom_attr_list.attr_map as Coq tables",
     "hand models coq/Model/Oscar.v, Jetscape.v of the loaders (token level: a line is line.split(' ') resp. tab/blank split), tied by this run's correspondence on generated files incl. tab- and blank-separated JETSCAPE headers and files without final newline",
     "oracles (universally quantified functions in the theorems, tables computed by the harness in the correspondence): Python float()/int() on a token, PDGID.is_valid/charge, numpy sqrt",
-    "character level -> token level: substring tests on the raw line are modelled as token tests (blank-free patterns occur inside one token; ' p ' is an inner token) - validated by the correspondence, proved only for numeric tokens (Lib/StrLemmas.v)",
+    "character level -> token level: proved (Lib/Split.v): split(' ') of a joined line gives its tokens, a blank-free pattern occurs in the line iff inside a token, ' p ' iff an inner token equals p; the raw tests 'in ' and ' start' are tied to their token forms by the correspondence only; tab-separated JETSCAPE headers by the correspondence",
     "Oscar2013Extended_IC / _Photons header scans are not modelled (outside the property's format list)",
 ]
 ASSUMPTIONS = ["nearest-double parsing is Python's float(); the property oracle re-derives it independently as float(Fraction(token))",
@@ -25,7 +25,7 @@ LEVEL_TEXT = ("Theorems (Coq, closed under the global context): for every well-f
               "derived JETSCAPE mass/charge; lines of the documented shapes are classified correctly for any numeric tokens. "
               "The loader models are run against the real readers on every run together with an independent re-parse oracle.")
 LEVEL_NOTE = ("Hand-written loader models at token level (tied by correspondence, not regenerated); tables regenerated; oracles for float()/int()/PDG/sqrt; "
-              "char-level substring semantics validated by correspondence and proved for numeric tokens only; GenerateFlow writers are exercised by read-back in the correspondence only.")
+              "char-level substring semantics proved for blank-free and blank-delimited patterns (Lib/Split.v), two raw tests by correspondence; GenerateFlow writers are exercised by read-back in the correspondence only.")
 TECHNIQUE = "Coq proof by induction over the events of a rendered document against an executable loader model; regenerated column tables; vm_compute correspondence with the real readers"
 
 PRELUDE = """From Coq Require Import List String ZArith QArith.
